@@ -49,7 +49,7 @@ def tree_plan(prop, level, rule, n_quick, n_thorough, nd_frac=4):
             "real": REAL_TREE,
             "stub": STUB_TREE,
             "assumptions": ASSUME_TREE,
-            "timeout_s": 3000 if tier == "thorough" else 900,
+            "timeout_s": 1800 if tier == "thorough" else 900,
         }
     return plan
 
@@ -103,7 +103,7 @@ def c16_plan(tier, seed, known):
         ],
         "simulated_time": ("storage stages: logical steps only (position of the failing / last write in the history); contended-reopen stage: "
                            "simulated retry clock, see coverage.other_counters.simulated_ms"),
-        "timeout_s": 3000 if thorough else 900,
+        "timeout_s": 1800 if thorough else 900,
     }
 
 
@@ -143,7 +143,7 @@ def proto_plan(prop, level, rule, n_quick, n_thorough, procs=16, other_variants=
             "stub": STUB_PROTO,
             "assumptions": ASSUME_PROTO,
             "simulated_time": "logical event order only (membership-log position vs delivery order); nothing in zerokit's protocol code reads a clock",
-            "timeout_s": 3400 if tier == "thorough" else 1200,
+            "timeout_s": 1800 if tier == "thorough" else 1200,
         }
     return plan
 
@@ -176,7 +176,7 @@ def c11_plan(tier, seed, known):
         "assumptions": ["the property quantifies over calls for which the Rust API returns: a history ends when the Rust side panics (counted in rust_side_panicked_run_ends; the only source seen is the open known finding in PmTree's mixed batch arm)",
                         "random outputs (proof bytes, unseeded identities) are compared structurally: lengths, public values, identity relations",
                         "the witness getter has no FFI form; for generate_rln_proof_with_witness the witness is taken from the FFI context through the Rust API"],
-        "timeout_s": 3000 if tier == "thorough" else 900,
+        "timeout_s": 1800 if tier == "thorough" else 900,
     }
 
 
@@ -234,7 +234,7 @@ def c18_plan(tier, seed, known):
         "assumptions": ["interleaving is controlled only at yield points: a race confined between two yield points is not seen (Miri was measured too slow for this code: ~15 min per schedule)",
                         "rayon's work stealing inside one call and sled's background threads are not controlled; nothing they decide is logged; pool size is controlled"],
         "simulated_time": "retry clock only: see coverage.other_counters.simulated_ms (sum of simulated back-off over all runs)",
-        "timeout_s": 3400 if thorough else 1200,
+        "timeout_s": 1800 if thorough else 1200,
     }
 
 
@@ -256,7 +256,7 @@ def c14_plan(tier, seed, known):
         "stub": ["caller-thread scheduling (baton)", "process placement (separate worker processes)"],
         "assumptions": ["the relation and canonical-encoding clauses are functions of the output only; they are checked on every identity the simulation produces",
                         "unseeded generation draws from thread_rng (not controlled): only relations and distinctness are asserted"],
-        "timeout_s": 3000 if thorough else 900,
+        "timeout_s": 1800 if thorough else 900,
     }
 
 
@@ -285,7 +285,7 @@ def c17_plan(tier, seed, known):
         "real": ["rln built under five feature sets (each a separate simworker binary from /repo's working tree)", "Groth16 prover/verifier, both key loaders (read_zkey, read_arkzkey_from_bytes_uncompressed)", "three tree backends at depth 20"],
         "stub": ["the transport between builds (driver relays bytes over pipes)", "the membership history source"],
         "assumptions": ["histories contain single writes, appends and deletions only (batch shapes belong to C06/C08)", "messages sampled as for C01 with a smaller budget"],
-        "timeout_s": 3400 if thorough else 1200,
+        "timeout_s": 1800 if thorough else 1200,
     }
 
 
